@@ -551,3 +551,13 @@ for _p in ("C17", "C03"):
     PROPS[_p].assumptions = PROPS[_p].assumptions + [
         "V-main: the effects of fn main (eprintln! / process::exit) are reified mechanically (edit D7) into a returned (log, status) pair; run, render_parse_error and "
         "eval_err_to_stacktrace are external with uninterpreted results, so the message TEXT after the path is whatever they return; std::fmt / env::args / join assumed"]
+
+
+# <Lexer as Iterator>::next - the statement terminator rule over the raw token stream (C09, unbounded)
+V_LEXNEXT = VUnit("lex_next", "lex_next", ["lexer::<Lexer as Iterator>::next"])
+ALL_V += [V_LEXNEXT]
+PROPS["C02"]._v = ALL_V
+PROPS["C09"]._v = PROPS["C09"]._v + [V_LEXNEXT]
+PROPS["C09"].assumptions = PROPS["C09"].assumptions + [
+    "V-lexnext: which raw tokens reach the parser (terminator rule), for a token stream of any length; next_token is external (an abstract stream), so what the raw "
+    "tokens of a given text ARE - whitespace, comments, carriage returns skipped - is decided only by the bounded Kani lexer units"]
